@@ -5,7 +5,9 @@ Effects.lean   every call site that can introduce nondeterminism (C08): global /
                of lists / dicts / frames whose ORDER was fixed while a set was enumerated and of everything derived
                from them (`order-taint`; for the maps of a Proteins object `map-order`), uses of dictionary values made
                by enumerating a set (`map-value`), directory listings (`dir-order`), lists that joblib workers append
-               to (`thread-order`).  Name based and flow-insensitive (taint holds from the line of the tainting
+               to (`thread-order`), calls of callables of the package that leave out their optional `rng` argument
+               or pass a literal None (`rng-default`), `random_state=` of third-party objects and `shuffle=True`
+               without one (`random-state`).  Name based and flow-insensitive (taint holds from the line of the tainting
                statement or of its outermost enclosing loop); see GAPS-C08.md.
 FileOps.lean   every call site that touches the file system, with its literal mode / pattern (C09)
 Constants.lean streaming chunk-size constants and their environment variables (C05)
@@ -43,6 +45,7 @@ VALUE_TAINT_ATTRS = set()   # attribute names of dictionaries whose VALUES were 
 FUNC_PARAMS = {}    # function name -> positional parameter names
 PACKAGE_CLASSES = set()   # classes defined in the package
 MODULE_ALIASES = set()    # names bound by import statements (so that `utils.flatten(..)` is a package call, `w.flatten()` is not)
+RNG_PARAMS = {}     # callable of the package (function or class) -> (position of its `rng` parameter, default is None?)
 DELAYED_FUNCS = set()   # functions run by joblib workers (`delayed(f)`): appends to their arguments happen in completion order
 ORDER_FREE = ("sorted", "len", "set", "frozenset", "isin")   # consumers for which the order of their argument is irrelevant
 ENUMERATORS = ("list", "tuple", "join", "enumerate", "array", "asarray", "next", "iter", "Series", "DataFrame", "zip",
@@ -109,6 +112,29 @@ def interprocedural_tables(trees):
         PACKAGE_CLASSES.update(n.name for n in ast.walk(tree) if isinstance(n, ast.ClassDef))
     for fn in _all_functions(trees):
         FUNC_PARAMS[fn.name] = [a.arg for a in fn.args.posonlyargs + fn.args.args]
+    # callables that take the seeded generator as `rng` (classes through their own __init__): position and default
+    RNG_PARAMS.clear()
+
+    def rng_param(fn, skip_self):
+        pos = [a.arg for a in fn.args.posonlyargs + fn.args.args]
+        if skip_self and pos and pos[0] in ("self", "cls"):
+            pos = pos[1:]
+        names = pos + [a.arg for a in fn.args.kwonlyargs]
+        if "rng" not in names:
+            return None
+        defaults = dict(zip(reversed([a.arg for a in fn.args.posonlyargs + fn.args.args]), reversed(fn.args.defaults)))
+        defaults.update({a.arg: d for a, d in zip(fn.args.kwonlyargs, fn.args.kw_defaults) if d is not None})
+        d = defaults.get("rng")
+        return (pos.index("rng") if "rng" in pos else None, isinstance(d, ast.Constant) and d.value is None)
+    for tree in trees:
+        for n in ast.walk(tree):
+            if isinstance(n, ast.ClassDef):
+                for m in n.body:
+                    if isinstance(m, ast.FunctionDef) and m.name == "__init__" and rng_param(m, True):
+                        RNG_PARAMS[n.name] = rng_param(m, True)
+        for n in tree.body:
+            if isinstance(n, ast.FunctionDef) and rng_param(n, False):
+                RNG_PARAMS[n.name] = rng_param(n, False)
     for tree in trees:
         for n in ast.walk(tree):
             if isinstance(n, ast.Call) and dotted(n.func).split(".")[-1] == "delayed" and n.args:
@@ -449,10 +475,36 @@ class Walker(ast.NodeVisitor):
         line = node.lineno
         add = lambda kind, detail, seeded: self.effects.append((self.rel, fn, line, kind, detail, seeded))  # noqa: E731
         map_attrs = set(PROTEIN_MAPS) | TAINT_ATTRS
+        # ---- the seeded generator is an OPTIONAL argument of some callables of the package (`rng=None`: a fresh
+        # generator from OS entropy): a call that leaves it out, or passes a literal None, is unseeded whatever seed
+        # the caller of the enclosing function fixed
+        callee = callee_name(node)
+        if callee in RNG_PARAMS and RNG_PARAMS[callee][1]:
+            pos = RNG_PARAMS[callee][0]
+            given = [k.value for k in node.keywords if k.arg == "rng"]
+            if pos is not None and len(node.args) > pos and not any(isinstance(a, ast.Starred) for a in node.args):
+                given.append(node.args[pos])
+            opaque = any(k.arg is None for k in node.keywords) or any(isinstance(a, ast.Starred) for a in node.args)
+            if not given and not opaque:
+                add("rng-default", f"{callee}:<omitted>", False)
+            elif given and isinstance(given[0], ast.Constant) and given[0].value is None:
+                add("rng-default", f"{callee}:None", False)
+        # ---- `random_state=` of third-party objects (sklearn splitters / estimators, scipy): None = numpy's global
+        # state; `shuffle=True` without a random_state is the same
+        rs_kw = self.kw(node, "random_state")
+        if last != "sample" and rs_kw is not None:
+            add("random-state", f"{last}:{ast.unparse(rs_kw)}",
+                not (isinstance(rs_kw, ast.Constant) and rs_kw.value is None))
+        elif last != "sample" and callee not in FUNC_PARAMS and callee not in PACKAGE_CLASSES:
+            sh = self.kw(node, "shuffle")
+            if isinstance(sh, ast.Constant) and sh.value is True:
+                add("random-state", f"{last}:<omitted>", False)
         # ---- randomness
         if name.startswith(("np.random.", "numpy.random.")):
             if last == "default_rng":
-                add("rng-new", name, bool(node.args or node.keywords))
+                # `default_rng()` / `default_rng(None)`: OS entropy
+                arg = (list(node.args) + [k.value for k in node.keywords])[:1]
+                add("rng-new", name, bool(arg) and not (isinstance(arg[0], ast.Constant) and arg[0].value is None))
             else:
                 add("np-global", last, False)
         elif name.startswith("random."):
